@@ -36,6 +36,14 @@ def write_baseline(chk):
         if "abstracted" in u:
             base[u["unit"]] = u["abstracted"]
     json.dump(base, open(p, "w"), indent=1, sort_keys=True)
+    from pyvc.driver import tree_hashes
+    json.dump(tree_hashes(), open(os.path.join(ROOT, "baseline", "tree.json"), "w"), indent=1, sort_keys=True)
+    from pyvc.repo import Repo
+    os.environ["VERIF_NO_ALPHA"] = "1"
+    try:
+        json.dump(Repo().alpha_table(), open(os.path.join(ROOT, "baseline", "locals.json"), "w"), indent=0, sort_keys=True)
+    finally:
+        os.environ.pop("VERIF_NO_ALPHA", None)
 
 
 def generic_replay(path):
